@@ -41,7 +41,7 @@ def run(ctx):
     mod, cfg = mcgen.write_mc(d, "mtbox", "MatrixTypes", {"MaxM": mx, "MaxN": mx, "MaxPad": 3},
                               invariants=("ImplSelectsRegion", "SelectedShape", "ImplExtentCovers", "TrianglesPartition",
                                           "Emit"))
-    r = ctx.tlc_check(d, mod, cfg, must_cover=("DefineFull", "DefineUpper", "DefineLower"), workers=4, timeout=1200)
+    r = ctx.tlc_check(d, mod, cfg, must_cover=("DefineFull", "DefineUpper", "DefineLower"), workers=2, timeout=1200)
     cases = []
     for l in r.printed:
         c = tlc._parse_tla_string_list(l)
